@@ -32,9 +32,12 @@ CLAIMED['C20'] = dict(
     text="Delimited by-product: for every function under contract in any unit (see coverage.functions_under_contract) Verus proves, for all inputs satisfying the stated precondition, that no index is out of bounds, no arithmetic overflows, no division by zero occurs and no unwrap/expect/unreachable!/panic! is reached (e.g. wildcard_match indexing, binary_relation/binary_arith unreachable!, remove_template/unlink panic!, tpe::Response unwraps, PolicySet::add unwrap in policy_set). A C20 violation is reported only when a function's failing obligations are exclusively of these kinds. Nothing is claimed for code outside the listed functions (parsers, JSON, protobuf, FFI, formatter, error rendering).",
     design_ref='§5 C20', technique='implicit safety obligations of Verus on the extracted functions (callee preconditions, overflow, unreachable)',
     note="Trusted: as for the units it aggregates. Termination is proved only where a decreases clause is present. The quantification of C20 over arbitrary bytes at every entry point is NOT covered: this check decides panic-freedom only for the functions under contract.")
+CLAIMED['C04'] = dict(
+    text="Checker and per-entity part of C04, proved by Verus on the extracted code: enforce_tc / enforce_dag_from_tc / enforce_dag_from_tc_for / enforce_tc_and_dag accept a store exactly when its stored ancestor relation is transitively closed and irreflexive (nested-loop invariants, unbounded), and for such a store every walk along edges is itself an edge and no walk returns to its start (lemmas: stored ancestors equal reachability, acyclic); Entity's ancestor bookkeeping (is_descendant_of = membership in parents+indirect ancestors, ancestors(), add/remove parent/indirect ancestor keep the two sets disjoint with exact whole-view effects) and impl TCNode for Entity is checked against the trait contract the checkers rely on. The history sentence of C04 (closure recomputation after add/upsert/remove; cycle rejection by compute_tc) is NOT decided here.",
+    design_ref='§5 C04', technique='Verus loop invariants + trait contracts on extracted code; graph lemmas',
+    note="Trusted: Verus/Z3, HashMap/HashSet model, nodes stored under their own key. Not covered: compute_tc, repair_tc, add_ancestors, cyclic_tc (SCC), Entities::{add,upsert,remove}_entities stale-edge stripping, impl TCNode for Arc<Entity>, eval_in (part of C02 work).")
 NOT_APPLICABLE = {
     'C03': 'strict-validation soundness relates two multi-thousand-line recursive functions over all programs x environments; no function contract within reach implies it (DESIGN §6)',
-    'C04': 'in progress',
     'C05': 'parser is LALRPOP-generated tables + Display through fmt::Formatter; Verus has no str/formatter reasoning (DESIGN §6)',
     'C06': 'four large structural recursions plus serde/prost-generated code; beyond reach of function contracts here (DESIGN §6)',
     'C09': 'two parsers, name resolution and a printer; same obstacles as C05/C06 (DESIGN §6)',
